@@ -362,9 +362,14 @@ def run_model(spec):
                 g.group_sites(2)
                 edg = ExactDiag(g)
                 edg.build_full_H_from_mpo()
-                ev_g = np.linalg.eigvals(edg.full_H.to_ndarray())
-                ev_0 = np.linalg.eigvals(H0)
-                require(np.allclose(np.sort_complex(np.round(ev_g, 8)), np.sort_complex(np.round(ev_0, 8)), atol=1e-6 * scale), 'group_sites-spectrum', '', rep='group_sites', **tags)
+                Hg = edg.full_H.to_ndarray()
+                if herm:
+                    ok = np.allclose(np.linalg.eigvalsh(Hg), np.linalg.eigvalsh(H0), atol=1e-8 * scale)
+                else:
+                    # the basis of the grouped sites differs: compare the invariants tr(H^k) (eigenvalues of a non-normal matrix
+                    # are ill-conditioned and have no canonical order)
+                    ok = all(abs(np.trace(np.linalg.matrix_power(Hg, k)) - np.trace(np.linalg.matrix_power(H0, k))) <= 1e-9 * scale ** k * len(H0) for k in (1, 2, 3, 4))
+                require(ok, 'group_sites-spectrum', 'spectral invariants of the grouped model differ', rep='group_sites', **tags)
         if which == 1 and N >= 3:
             # sort_mpo_legs
             mpo_s = model.calc_H_MPO()
